@@ -181,6 +181,32 @@ def check(case, vals=None):
         return "refused", fails, labs
     except Exception as e:
         fails.append((util.exc_bucket(entry, e), util.exc_detail(e)))
+    if not fails and exp.dtype.kind in "iuf" and exp.size and int(util.h64(prog), 16) % 3 == 0 and not any(isinstance(c, float) for ax in x.chunks for c in ax):
+        # the SAME object, already materialised through the entry point above, is updated in place with a dask
+        # boolean key; the method and the function entry points must then both see the new array
+        # a threshold strictly between two data values, well away from both: values of inexact statements
+        # (var = 5.000000000001) must not straddle it
+        u = np.unique(exp[np.isfinite(exp)]) if exp.dtype.kind == "f" else np.unique(exp)
+        gaps = [(float(b) - float(a), k) for k, (a, b) in enumerate(zip(u[:-1], u[1:]))]
+        scale = float(np.max(np.abs(u))) if u.size else 0.0
+        gaps = [(g, k) for g, k in gaps if g > 1e-6 * max(1.0, scale)]
+        if not gaps:
+            return "ok", fails, labs
+        k = gaps[len(gaps) // 2][1]
+        thr = (float(u[k]) + float(u[k + 1])) / 2.0
+        exp2 = exp.copy()
+        try:
+            with np.errstate(all="ignore"):
+                exp2[exp2 > thr] = 0
+                x[x > thr] = 0
+            got_m = x.compute()
+            (got_f,) = dask.compute(x)
+        except Exception:
+            labs.append("masked-update-raised")  # whether the update is accepted is C11's business
+        else:
+            labs.append("masked-update-then-both-entries")
+            cmp(got_m, exp2, "after-masked-update:x.compute")
+            cmp(got_f, exp2, "after-masked-update:dask.compute")
     return "ok", fails, labs
 
 
